@@ -110,8 +110,44 @@ def has_quantifier(f):
     return False
 
 
+_seq_cache = {}
+
+
+def mentions_seq(f):
+    """does the formula contain a term of a sequence / string sort"""
+    import z3
+
+    if f.get_id() in _seq_cache:
+        return _seq_cache[f.get_id()]
+    work, seen, found = [f], set(), False
+    while work and not found:
+        x = work.pop()
+        i = x.get_id()
+        if i in seen:
+            continue
+        seen.add(i)
+        try:
+            if x.sort().kind() == z3.Z3_SEQ_SORT:
+                found = True
+                break
+        except Exception:
+            pass
+        if z3.is_quantifier(x):
+            work.append(x.body())
+        elif z3.is_app(x):
+            work.extend(x.children())
+    _seq_cache[f.get_id()] = found
+    return found
+
+
 def any_quantifier(formulas):
-    return any(has_quantifier(f) for f in formulas)
+    """queries whose `unsat` from z3 5.1.0 needs independent confirmation: quantified ones always; in the
+    thorough tier (PYVC_CONFIRM=seq) also every query over sequences / strings"""
+    if any(has_quantifier(f) for f in formulas):
+        return True
+    if os.environ.get("PYVC_CONFIRM") == "seq":
+        return any(mentions_seq(f) for f in formulas)
+    return False
 
 
 def old_z3_check(smt2_text, timeout_s=20):
